@@ -72,6 +72,8 @@ type Obligation struct {
 	noCOI   bool
 	instMode bool
 	smtInst string
+	replayExtra []string // extra assertions of a model query (replay)
+	replayGet   []string // terms whose model values are requested
 }
 
 type State struct {
@@ -188,6 +190,7 @@ type VC struct {
 	entryCache map[*ssa.Package]*State
 	entryErr map[*ssa.Package]error
 	pureCache map[string][]Val
+	entries  map[string]*replayEntry // per verified run: the symbolic inputs, for replay
 	divCache map[string]Term
 	divAsTerm bool
 	declCache []declInfo
@@ -1296,6 +1299,12 @@ func (o *Obligation) smtVariant(produceModels bool, dropQuantified bool) string 
 		mark(a.E)
 	}
 	mark(o.Goal.E)
+	for _, x := range o.replayExtra {
+		mark(x)
+	}
+	for _, x := range o.replayGet {
+		mark(x)
+	}
 	include := make([]bool, len(infos))
 	for changed := true; changed; {
 		changed = false
@@ -1370,6 +1379,9 @@ func (o *Obligation) smtVariant(produceModels bool, dropQuantified bool) string 
 	} else {
 		body.WriteString("(assert (not " + o.Goal.E + "))\n")
 	}
+	for _, x := range o.replayExtra {
+		body.WriteString("(assert " + x + ")\n")
+	}
 	bs := body.String()
 	logic := "ALL"
 	if !strings.Contains(bs, "forall") && !strings.Contains(bs, "exists") && !strings.Contains(bs, "declare-sort") &&
@@ -1384,7 +1396,9 @@ func (o *Obligation) smtVariant(produceModels bool, dropQuantified bool) string 
 	sb.WriteString("(set-logic " + logic + ")\n")
 	sb.WriteString(bs)
 	sb.WriteString("(check-sat)\n")
-	if produceModels {
+	if len(o.replayGet) > 0 {
+		sb.WriteString("(get-value (" + strings.Join(o.replayGet, " ") + "))\n")
+	} else if produceModels {
 		sb.WriteString("(get-model)\n")
 	}
 	return sb.String()
